@@ -217,6 +217,7 @@ func runC05(c *run.Ctx, s *kit.Summary) {
 	st.Diff(c.Driver, s)
 	if c.Replay == "" {
 		realTransportRuns(c, s, r)
+		cliRuns(c, s, r)
 	}
 	if !raceChild && c.Replay == "" {
 		raceRun(c, s)
